@@ -224,8 +224,9 @@ def one(emit, cid, fam, rng, sample):
             amax = float(np.max(np.abs(X.T @ np.where(y > 0, q, q - 1))))
             alpha = max(frac, 0.01) * amax
             prob = R.RefProblem(X, y, R.RefDatafit("pinball", q=q), R.RefPenalty("l1", alpha=alpha), False)
-            w, _, st = PDCD_WS(tol=1e-9, max_iter=2000, max_epochs=20000).solve(X, y, cc(Pinball(q)), cc(P.L1(alpha)))
-            res["skglm.PDCD_WS"] = (w, "budget-lp", True)
+            w, _, st = PDCD_WS(tol=1e-9, max_iter=30000, max_epochs=20000).solve(X, y, cc(Pinball(q)), cc(P.L1(alpha)))
+            # its stopping value is a primal-dual fixed-point residual: a run that did not reach it claims nothing
+            res["skglm.PDCD_WS"] = (w, "budget-lp" if st <= 1e-9 else None, True)
             sk = SK.QuantileRegressor(quantile=q, alpha=alpha / n, fit_intercept=False, solver="highs").fit(X, y)
             res["sklearn.highs"] = (np.ravel(sk.coef_), None, False)
         else:   # sqrtlasso
@@ -239,8 +240,8 @@ def one(emit, cid, fam, rng, sample):
             prob = R.RefProblem(X, y, R.RefDatafit("sqrtquad"), R.RefPenalty("l1", alpha=alpha), False)
             est = SqrtLasso(alpha=alpha, tol=tol, max_iter=500).fit(X, y)
             res["skglm.SqrtLasso"] = (np.ravel(est.coef_), "budget", True)
-            w, _, st = PDCD_WS(tol=1e-9, max_iter=2000, max_epochs=20000).solve(X, y, cc(SqrtQuadratic()), cc(P.L1(alpha)))
-            res["skglm.PDCD_WS"] = (w, "budget", True)
+            w, _, st = PDCD_WS(tol=1e-9, max_iter=30000, max_epochs=20000).solve(X, y, cc(SqrtQuadratic()), cc(P.L1(alpha)))
+            res["skglm.PDCD_WS"] = (w, "budget" if st <= 1e-9 else None, True)
             from scipy.optimize import minimize
 
             def f(uv):
